@@ -104,6 +104,77 @@ def run (α : Type) [Scalar α] [Codec α] (op : String) (c : Ctx) : Option (Rd 
       pure (" ".intercalate (cases.map fun cs =>
         let r := Spec.In3D.farCert cs.1 V cs.2
         s!"{Out.sc r.1} {Out.sc r.2}"))
+  | "in3.arg" => some do
+      -- the full calls with their glue.  in: class (0 cp, 1 poly, 2 sphere, 3 ellipsoid), class data,
+      -- flag (0: one (3,) row, 1: (N,3) rows), points ; out: bools  |  E:KeyError
+      let cls ← Rd.int c
+      let rdPts : Rd (Points α) := do
+        let flag ← Rd.int c
+        if flag == 0 then do let p ← Rd.v3 (α := α) c; pure (Points.row p)
+        else do let ps ← Rd.list c (Rd.v3 (α := α) c); pure (Points.rows ps)
+      if cls == 0 then do
+        let eqs : List (Plane α) ← Rd.list c (Rd5.plane c)
+        let pts ← rdPts
+        pure (Out.bools (CP.isInsideArg eqs pts))
+      else if cls == 1 then do
+        let V : List (V3 α) ← Rd.list c (Rd.v3 c)
+        let S : List (Tri α) ← Rd.list c (Rd.tri c)
+        let pts ← rdPts
+        match Poly.isInsideArg V S pts with
+        | .ok bs => pure (Out.bools bs)
+        | .error e => pure s!"E:{e}"
+      else if cls == 2 then do
+        let r : α ← Rd.sc c
+        let cen : V3 α ← Rd.v3 c
+        let pts ← rdPts
+        pure (Out.bools (Sphere.isInsideArg r cen pts))
+      else do
+        let a : α ← Rd.sc c; let b : α ← Rd.sc c; let cc : α ← Rd.sc c
+        let cen : V3 α ← Rd.v3 c
+        let pts ← rdPts
+        pure (Out.bools (Ellipsoid.isInsideArg a b cc cen pts))
+  | "spec.in3.ray" => some do
+      -- in: surface triangles S, apex o, points
+      -- out: closedCheck S, then per point: offCone (cone o S) p, rayWinding o S p
+      -- (Q mode: the hypotheses / right-hand side of `poly_inside_iff_ray_checked`, decided exactly)
+      let S : List (Tri α) ← Rd.list c (Rd.tri c)
+      let o : V3 α ← Rd.v3 c
+      let pts : List (V3 α) ← Rd.list c (Rd.v3 c)
+      let Ts := Spec.In3D.coneTets o S
+      pure s!"{Out.bool (ChainCheck.closedCheck S)} {" ".intercalate (pts.map fun p =>
+        s!"{Out.bool (Spec.In3D.offCone Ts p)} {Out.int (Spec.In3D.signedCount Ts p)}")}"
+  | "spec.in3.tetcount" => some do
+      -- in: surface triangles S, tets Ts, points
+      -- out: chainCheck S (∂Ts), all orientations ≥ 0, then per point: offCone Ts p, signedCount Ts p, inTets Ts p
+      let S : List (Tri α) ← Rd.list c (Rd.tri c)
+      let Ts : List (Tet α) ← Rd.list c (Rd.tet c)
+      let pts : List (V3 α) ← Rd.list c (Rd.v3 c)
+      let ok := ChainCheck.chainCheck S (Ts.flatMap Tet.bdry)
+      let orr := Ts.all fun T => decide (Scalar.lit 0 ≤ Spec.In3D.orient T.a T.b T.c T.d)
+      pure s!"{Out.bool ok} {Out.bool orr} {" ".intercalate (pts.map fun p =>
+        s!"{Out.bool (Spec.In3D.offCone Ts p)} {Out.int (Spec.In3D.signedCount Ts p)} {Out.bool (Spec.In3D.inTets Ts p)}")}"
+  | "spec.in3.facets" => some do
+      -- in: V, eqs, weights ws, facet triangles (tri, index of its plane in eqs), margin m, box radius R
+      -- out: facetCert, then diagnostics: weights ok, closed, number of failing facet triangles, o (3), η
+      -- (Q mode: the hypothesis of `cp_mem_hull_of_inside_cert`, decided exactly)
+      let V : List (V3 α) ← Rd.list c (Rd.v3 c)
+      let eqs : List (Plane α) ← Rd.list c (Rd5.plane c)
+      let ws : List α ← Rd.list c (Rd.sc c)
+      let ea := eqs.toArray
+      let F : List (Tri α × V3 α × α) ← Rd.list c (do
+        let t ← Rd.tri (α := α) c; let k ← Rd.nat c
+        let e := ea.getD k ⟨V3.zero, Scalar.lit 0⟩
+        pure (t, e.n, e.d))
+      let m : α ← Rd.sc c
+      let R : α ← Rd.sc c
+      let eqs' := eqs.map fun e => (e.n, e.d)
+      let o := Spec.In3D.comb ws V
+      let wok := decide (ws.length = V.length) && (ws.all fun w => decide (Scalar.lit 0 ≤ w)) &&
+        Scalar.eqb (Scalar.sum ws) (Scalar.lit 1)
+      let bad := (F.filter fun f => !(Spec.In3D.facetOK V eqs' o m R f)).length
+      -- η = the largest plane value over all (plane, vertex) pairs (hypothesis of `cp_planeDist_le_of_mem_hull`)
+      let eta := Spec.In3D.maxOf (eqs'.flatMap fun e => V.map (Spec.In3D.planeVal e.1 e.2))
+      pure s!"{Out.bool (Spec.In3D.facetCert V eqs' ws F m R)} {Out.bool wok} {Out.bool (ChainCheck.closedCheck (F.map Prod.fst))} {Out.int bad} {Out.v3 o} {Out.sc eta}"
   | _ => none
 
 end OpsC05
